@@ -1487,3 +1487,156 @@ spec('C11', correspond=c11_correspond, replay=c11_replay, modules=['C11'],
      trusted=['char::is_whitespace = the Unicode White_Space table (compared for every scalar value on every run)', 'the reference reader (Python) as the statement of the grammar', 'the correspondence check'],
      assumptions=['a character literal is % followed by exactly one code point or one of the five escapes (after the fix that removed the grapheme counter)',
                   'known finding F5: a quote directly followed by a quote or by a closing parenthesis'])
+
+
+# ================================================================================================ C09
+
+def c09_forms(rng, n):
+    forms = []
+    inline = ["((macro (a b) (list 'add a b)) 1 2)", "((macro (& xs) (cons 'list xs)) 1 2 3)", "((lambda (x) (when x 1)) 1)", "((lambda (x) (when x (or nil x))) 7)",
+              "'(when t 1)", "(list '(and 1 2) (and 1 2))", "(quote (let (x 1) x))", "((if t (lambda (q) (not q)) car) nil)", "(let (f (lambda (v) (case ((= v 1) 'one) ((= v 2) 'two) (t 'many)))) (list (f 1) (f 2) (f 3)))",
+              "((macro (x) (list 'quote x)) (when t 1))", "(block (output \"a\") (when t (block (output \"b\") 2)))", "(try (throw 'kind 'k1 'source 's) (catch k1 (lambda (e) (and e 1))))",
+              "(apply list '(1 2 3))", "(let (a 1 b 2) (and (< a b) (or nil (not nil))))", "(map (lambda (x) (when (> x 1) (block x))) '(1 2 3))", "(list when)", "((lambda (when) when) 5)",
+              "(((macro (x) (list 'lambda '(y) x)) (add y 1)) 5)"]
+    forms += inline
+    for _ in range(n):
+        g = Gen(rng, ALL - {'globals'}, fault_rate=0.08, max_depth=rng.choice([3, 4, 5]))
+        ty = rng.choice(['int', 'int', 'list', 'bool', 'any'])
+        forms.append(g.expr(ty, [], 0))
+    return forms
+
+def c09_correspond(run, rng, tier):
+    forms = c09_forms(rng, 700 if tier == 'quick' else 12000)
+    sessions = []
+    for x in forms:
+        sessions.append(['new prelude',
+                         'eval ' + hexs(f"(eval (quote {x}))"),
+                         'eval ' + hexs(f"(eval (macroexpand (quote {x})))"),
+                         'eval ' + hexs(f"(print (macroexpand (macroexpand (quote {x}))))"),
+                         'eval ' + hexs(f"(print (macroexpand (quote {x})))"),
+                         'eval ' + hexs(x)])
+    real, model = both(sessions, timeout=300)
+    diffs = compare(sessions, real, model)
+    failures = crash_failures(sessions, real)
+    dist = {'value': 0, 'signal': 0, 'abort': 0, 'timeout-or-died': 0}
+    def strip_dump(line):
+        res, tr = parse_eval(line)
+        if res is None:
+            return None
+        return [(k, canon('=' + hexs(p))) for (k, p, _) in res], re.sub(r'0x[0-9a-f]+', '0x?', tr.get('out') or '')
+    for x, r in zip(forms, real):
+        if len(r) < 6:
+            dist['timeout-or-died'] += 1
+            failures.append({'expression': x, 'problem': f'expansion or evaluation did not terminate / driver died: {r[-1][:100] if r else r}'})
+            continue
+        a, b, c2, c1, d = (strip_dump(r[i]) for i in (1, 2, 3, 4, 5))
+        kind = a[0][0][0] if a and a[0] else '?'
+        dist[{'ok': 'value', 'sig': 'signal', 'abort': 'abort'}.get(kind, 'signal')] += 1
+        if a != b:
+            failures.append({'expression': x, 'problem': 'evaluating the form and evaluating its expansion differ', 'eval': str(a)[:300], 'eval_of_expansion': str(b)[:300]})
+        elif a != d:
+            failures.append({'expression': x, 'problem': '(eval (quote x)) and x typed at top level differ', 'eval': str(a)[:300], 'direct': str(d)[:300]})
+        elif c1 and c1[0] and c1[0][0][0] == 'ok' and c1 != c2:
+            failures.append({'expression': x, 'problem': 'expanding an already expanded form changed it', 'once': str(c1)[:300], 'twice': str(c2)[:300]})
+    return {'evaluations': len(forms) * 5, 'distinct_nontrivial': len({x for x in forms if any(m in x for m in ('when', 'let', 'and', 'or', 'not', 'block', 'case', 'try', 'throw', 'apply', 'macro'))}),
+            'rule': 'forms over the prelude macros (let when and or not block case try/catch throw apply) and inline (macro …) operators, nested, with macro calls inside lambda bodies, inside operands of other macros, '
+                    'under quote and inside compound operator expressions; for each form: (eval x), (eval (macroexpand x)), (macroexpand (macroexpand x)) vs (macroexpand x), and x at top level — on the real interpreter, '
+                    'compared with each other (the oracle) and with the model; non-trivial = form containing a macro',
+            'samples': forms[:3] + forms[20:22], 'disagreements': diffs, 'oracle_failures': failures, 'distribution': dist}
+
+spec('C09', correspond=c09_correspond, replay=generic_replay, modules=['C09'],
+     search=lambda run, rng, d: c09_correspond(run, random.Random(rng.random()), 'quick')['oracle_failures'],
+     trusted=['the evaluator model is tied to eval/mod.rs by differential execution', 'the correspondence check'],
+     assumptions=['values are well formed (metadata cells never nest): needed for the fixpoint theorem, see round_idempotent_false',
+                  '"terminates whenever the macros it uses terminate": user macros that expand into themselves forever make expansion diverge (out of fuel in the model, a step budget in the check)'])
+
+
+# ================================================================================================ C06
+
+SHAPES = ["()", "nil", "0", "1", "-1", "9223372036854775807", "-9223372036854775808", "%a", "%\\n", "'a", "'list", "(gensym)", '"str"', '""', "'(1 2 3)", "(cons 1 2)", "(cons 1 (cons 2 3))",
+          "'(a 1 b 2)", "'(a 1 b)", "'(1 a)", "(list 'list %a)", "'(list)", "(lambda (x) x)", "(lambda (& r) r)", "(macro (x) x)", "car", "eval", "(trap 1 2)", "(make-trap 1 2)",
+          "(make-function '(x) 'x 5 'default 'lambda-type)", "(make-function '() 'y '((y)) 'default 'lambda-type)", "(make-function '(a) 'a '(1 2 . 3) 'nomodule 'macro-type)",
+          "'stdin", "'prelude", "'*stdin*", "'*stdout*", "(list (list 1 (list 2)))", "'default", "'lambda-type", "'macro-type", "(cons (cons 'x 1) (cons 5 'y))", "'((a . 1) (b . 2))"]
+
+NATIVES40 = ['cons', 'car', 'cdr', 'list', '.', 'append', 'unrest', 'abort', 'signal', 'read', 'make-trap', 'make-function', 'call-native-function', 'macroexpand', 'eval', 'load-all',
+             'print', 'add', 'substract', 'multiply', 'divide', '<', '>', 'define', 'undefine', 'whereis', 'export', 'get-current-module', 'from-module', 'with-current-module',
+             'destructure-trap', 'destructure-function', 'type-of', 'get-metadata', 'send', 'receive', 'input-file', 'output-file', 'gensym', '=']
+
+def c06_native_calls(rng, tier):
+    calls = []
+    core = SHAPES[:14]
+    for nat in NATIVES40:
+        if nat in ('receive',):
+            calls.append(f'({nat})')
+            continue
+        calls.append(f'({nat})')
+        for a in SHAPES:
+            calls.append(f'({nat} {a})')
+        for a in core:
+            for b in core:
+                calls.append(f'({nat} {a} {b})')
+        for _ in range(40 if tier == 'quick' else 400):
+            k = rng.randint(3, 5)
+            calls.append(f'({nat} ' + ' '.join(rng.choice(SHAPES) for _ in range(k)) + ')')
+    # hand-made functions and environments, called
+    for f in ["(make-function '(x) 'x 5 'default 'lambda-type)", "(make-function '(x) '(y) '((y . 1) z (3)) 'default 'lambda-type)", "(make-function '(&) 1 () 'default 'lambda-type)",
+              "(make-function '(a & b) '(list a b) () 'default 'macro-type)", "(unrest (lambda (a & b) b))", "(make-function '(q) '(q) (cons 1 2) 'zz 'lambda-type)"]:
+        for args in ['', '1', '1 2', "'(1)"]:
+            calls.append(f'(({f}) {args})' if False else f'({f} {args})')
+    calls += ["(call-native-function eval (list 'x) 5)", "(call-native-function eval (list 'x) '((x . 1)))", "(call-native-function car (cons 1 2) ())", "(call-native-function print '(1) '(2))",
+              "(read \"x\" 'stdin 0 1)", "(read \"x\" 'stdin 1 0)", "(read \"x\" 'stdin -9223372036854775808 -9223372036854775808)", "(read \"x\" 'stdin 9223372036854775807 9223372036854775807)",
+              "(read \"x\\ny\" 'stdin 9223372036854775807 9223372036854775807)", "(read '(1 2) 'stdin 1 1)", "(read (cons %a 5) 'stdin 1 1)", "(read \"a\" \"file\" 1 1)", "(read \"a\" 'nowhere 1 1)",
+              "(send '(a))", "(send '(a 1 b))", "(send '(1 2))", "(divide -9223372036854775808 -1)", "(eval (list 'if))", "(eval (cons 1 2))", "(eval (cons 'add (cons 1 2)))", "(macroexpand (cons 'when 5))",
+              "(print (cons 1 (cons 2 3)))", "(load-all \"(\" \"m\")", "(load-all '\"abc\" \"m\")", "(load-all \"1\" 5)", "(define 'a 1 2)", "(export '(1))", "(input-file 5)", "(output-file 5 \"x\")"]
+    return calls
+
+def c06_correspond(run, rng, tier):
+    calls = c06_native_calls(rng, tier)
+    batch = 40
+    progs = ['\n'.join(f"(eval (trap {c} (list 'signalled (type-of *trapped-signal*))))" for c in calls[i:i + batch]) for i in range(0, len(calls), batch)]
+    # malformed expression trees handed to eval / macroexpand / print / read, generated programs with many faults
+    for _ in range(300 if tier == 'quick' else 6000):
+        g = Gen(rng, ALL, fault_rate=0.4)
+        progs.append(g.program())
+    garbage = []
+    for _ in range(300 if tier == 'quick' else 5000):
+        def tree(d):
+            k = rng.random()
+            if d > 4 or k < 0.35:
+                return rng.choice(SHAPES + ['if', 'lambda', 'quote', 'trap', 'macro', '&', 'eval', 'x'])
+            if k < 0.5:
+                return f'(cons {tree(d + 1)} {tree(d + 1)})'
+            return '(list ' + ' '.join(tree(d + 1) for _ in range(rng.randint(0, 4))) + ')'
+        t = tree(0)
+        garbage.append(f"(eval (trap (list (type-of (eval {t})) (type-of (macroexpand {t})) (print {t})) (list 'signalled (type-of *trapped-signal*))))")
+    progs += ['\n'.join(garbage[i:i + 20]) for i in range(0, len(garbage), 20)]
+    sessions = [['new prelude', 'stdin ' + hexs('line one\n'), 'eval ' + hexs(p), 'audit'] for p in progs]
+    real, model = both(sessions, timeout=600)
+    diffs = compare(sessions, real, model)
+    failures = crash_failures(sessions, real)
+    for s, r in zip(sessions, real):
+        if r and r[-1].startswith('LEAK'):
+            failures.append({'expression': unhex(s[2].split(' ')[1]).decode()[:400], 'problem': 'handle audit / heap invariants after the run: ' + r[-1][:200]})
+    # deep structures through the paths that have no depth counter: a process of the plain dev-profile binary must survive
+    findings_seen = set()
+    deep = [('equal-deep-nesting', "(block (define 'nest (lambda (n acc) (if (= n 0) acc (nest (substract n 1) (list acc)))) \"\") (eval (trap (= (nest 200000 1) (nest 200000 1)) 'signalled)))", 'F14-native-recursion-equal'),
+            ('print-long-improper-list', "(eval (trap (length (print (foldl (lambda (acc x) (cons x acc)) 0 (range 200000)))) 'signalled))", 'F14-native-recursion-print-atom')]
+    if tier == 'thorough' or True:
+        for name, expr, fid in deep:
+            rc, out, err = run_plain_expression(expr, timeout=600)
+            if rc != 0:
+                findings_seen.add(fid)
+                failures.append({'expression': expr, 'exit': rc, 'stderr': err[-200:], 'problem': f'{name}: the process died (native stack overflow)', 'finding': fid})
+    kinds = outcome_stats(real, line=2)
+    return {'evaluations': len(calls) + len(progs) - (len(calls) + batch - 1) // batch + len(garbage), 'distinct_nontrivial': len(set(calls)) + len(set(garbage)),
+            'rule': 'every native applied to 0-5 arguments from a pool of 40 shapes (nil, extreme integers, characters, named and generated symbols, proper / improper / metadata-carrying lists, strings with and without the list head, '
+                    'odd property lists, closures, macros, natives, traps, hand-made functions with garbage environments): exhaustive for arity 0-1 over the whole pool and arity 2 over a 14-shape core, sampled beyond; '
+                    'random expression trees (special-form heads in any position, improper forms) handed to eval, macroexpand and print; generated programs with a 40% fault rate; every case under catch_unwind, compared with the model, '
+                    'followed by a handle audit; plus process-level runs of the two native recursions that have no depth counter',
+            'samples': [calls[5], calls[900], garbage[0][:200]], 'disagreements': diffs, 'oracle_failures': failures, 'distribution': kinds, 'findings_seen': findings_seen}
+
+spec('C06', correspond=c06_correspond, replay=generic_replay, modules=['C06'], plain=True,
+     search=lambda run, rng, d: c06_correspond(run, random.Random(rng.random()), 'quick')['oracle_failures'],
+     trusted=['the evaluator / reader / printer models are tied to the Rust code by differential execution', 'the correspondence check'],
+     assumptions=['values are well formed (metadata cells never nest: allocate_metadata refuses to build one)', 'allocation failure (out of memory) is outside the model',
+                  'bytes of native stack per recursion level are outside the model (C07 measures them); the two recursions without a depth counter are known finding F14'])
